@@ -386,3 +386,70 @@ func H_C11_customDelims() {
 	vfReach("done")
 	vfAssert(gotA == wantA && gotB == wantB, "each concurrent GetTemplate + Execute yields what it yields alone")
 }
+
+// H_C11_firstLoad: one goroutine loads (first-time GetTemplate) and executes a template that
+// extends / imports already cached templates, while the other executes one of those cached
+// templates; and two goroutines execute, without a VarMap, templates whose custom function
+// declares a variable through the Runtime (LetGlobal / Let): no unordered conflicting
+// accesses, and every result equals the solo result.
+//
+//gosym:reach done
+//gosym:opts maxviol=200
+func H_C11_firstLoad() {
+	sc := ndChoice("scenario", 3)
+	mk := func() *Set {
+		l := NewInMemLoader()
+		l.Set("/a.jet", `{{ block title() }}A-title{{ end }}|{{ block body() }}A-body{{ end }}`)
+		l.Set("/b.jet", `{{ block title() }}B-title{{ end }}`)
+		l.Set("/imp.jet", `{{ import "/a.jet" }}{{ import "/b.jet" }}{{ yield title() }}+{{ yield body() }}`)
+		l.Set("/ext.jet", `{{ extends "/a.jet" }}{{ import "/b.jet" }}`)
+		l.Set("/lg.jet", `{{ decl() }}hello {{ u }}`)
+		s := NewSet(l)
+		s.AddGlobalFunc("decl", func(a Arguments) reflect.Value {
+			c := a.Runtime().Context()
+			a.Runtime().LetGlobal("u", c.Interface())
+			return reflect.ValueOf("")
+		})
+		s.GetTemplate("/a.jet")
+		s.GetTemplate("/b.jet")
+		return s
+	}
+	names := [][2]string{{"/imp.jet", "/a.jet"}, {"/ext.jet", "/a.jet"}, {"/lg.jet", "/lg.jet"}}[sc]
+	run := func(s *Set, name string, data interface{}) string {
+		t, err := s.GetTemplate(name)
+		if err != nil {
+			return "<load error>"
+		}
+		var buf bytes.Buffer
+		if t.Execute(&buf, nil, data) != nil {
+			return buf.String() + "<error>"
+		}
+		return buf.String()
+	}
+	solo := mk()
+	want1, want2 := run(solo, names[0], "user1"), run(mk(), names[1], "user2")
+	set := mk()
+	reps := 1
+	if !vfSymbolic() {
+		reps = 100
+	}
+	vfRace(vfTier())
+	var got1, got2 string
+	var wg sync.WaitGroup
+	wg.Add(2)
+	go func() {
+		defer wg.Done()
+		for k := 0; k < reps; k++ {
+			got1 = run(set, names[0], "user1")
+		}
+	}()
+	go func() {
+		defer wg.Done()
+		for k := 0; k < reps; k++ {
+			got2 = run(set, names[1], "user2")
+		}
+	}()
+	wg.Wait()
+	vfReach("done")
+	vfAssert(got1 == want1 && got2 == want2, "each concurrent load / execution yields what it yields alone")
+}
